@@ -346,6 +346,12 @@ def gen_case(rng, kind, quick, mode=None):
         designs = [[rng.uniform(-4, 4) for _ in range(n)] for _ in range(nd)]
         objs = [[rng.uniform(-2, 2) for _ in range(1 + 2 * n)] for _ in range(user)]
         cons = [[rng.uniform(-2, 2) for _ in range(1 + 2 * n)] for _ in range(rng.choice([0, 0, 0, 1, 2]))]
+    # coordinates on, or within the finite-difference step of, the declared bounds [-5, 5] (designs that clipping
+    # operators produce): the neighbours / displaced points are what the statement says, whatever the bounds are
+    for d in designs:
+        for i in range(n):
+            if rng.random() < 0.15:
+                d[i] = rng.choice([5.0, -5.0, 5.0 - 1 / 65536, -5.0 + 1 / 65536, 5.0 - 1 / 16384])
     if rng.random() < 0.2 and nd > 1:          # equal designs (distinct objects) inside a run
         designs[-1] = list(designs[0])
     signs = [rng.choice([1, 1, -1]) for _ in range(user)]
